@@ -146,6 +146,7 @@ class Cx(object):
                      'typedef void %s(void);' % X[7],
                      'typedef %s *%s;' % (X[6], X[8]),
                      'typedef long %s[3];' % X[9]]
+            own_bool = rv.random() < 0.5
             texts += extra
             ctexts += extra
             typedefs += [X[0], X[1], X[2], X[4], X[5], X[8], X[9]]
@@ -169,6 +170,12 @@ class Cx(object):
             enumerators = [(r1(n), v) for n, v in enumerators]
             owner = dict((r1(n), i) for n, i in owner.items())
             self.fntypedefs = [r1(n) for n in fntd]
+            if own_bool:
+                # a user typedef of one of cffi's predefined common names (added after the
+                # renaming): the context's own declaration must win in both parsers
+                texts.append('typedef unsigned char bool;')
+                ctexts.append('typedef unsigned char bool;')
+                typedefs.append('bool')
         self.typedefs, self.structs, self.unions, self.enums = typedefs, structs, unions, enums
         self.consts, self.enumerators = consts, enumerators
         # include parts: consecutive runs of declarations (a declaration only
@@ -839,8 +846,9 @@ def child_case(st, case):
                             break
                     dis.append([seed, s, kind, expl, r1 or repr(t1), r2 or repr(t2), mutated,
                                 plain if ext and only is None else s])
-            if bare:
-                # the context-free C parser must agree with the populated one
+            if bare and not ('bool' in c.typedefs and re.search(r'\bbool\b', s)):
+                # the context-free C parser must agree with the populated one (unless the
+                # context itself redefines the standard name that the string uses)
                 try:
                     t3 = st['bare'].typeof(s)
                     r3 = None
@@ -879,7 +887,7 @@ def child_case(st, case):
                 t2 = ffi2.typeof(x)
             except Exception:
                 t2 = None
-            if t3 is not t2:
+            if t3 is not t2 and not (n == 'bool' and 'bool' in c.typedefs):
                 rep.bad('bare-vs-populated-cparser', '%r: _cffi_backend.FFI() -> %r, module ffi -> %r'
                         % (x, t3, t2), [seed, x])
 
@@ -1043,6 +1051,8 @@ def finalize(ctx, setup):
                  'typedef double _Complex _cffi_double_complex_t;',
                  '#define __cdecl __attribute__((__cdecl__))',
                  '#define __stdcall __attribute__((__stdcall__))']
+        if 'typedef unsigned char bool;' in c.ctext:
+            lines.append('#undef bool')          # <stdbool.h>'s macro
         lines += c.ctext.split('\n')
         base = len(lines)
         for i, d in enumerate(ds):
